@@ -768,12 +768,17 @@ pub fn apply_plan(plan: &mut Plan, options: &ApplyOptions) -> Result<()> {
         ));
     }
 
-    // Apply content edits to files at their ORIGINAL locations (before renames)
+    // Read every file to be edited before changing any of them: a file that cannot be read
+    // (not valid UTF-8, unreadable, gone) must fail the apply while the tree is still untouched
+    let mut files_to_edit = Vec::with_capacity(edits_by_file.len());
     for (path, edits) in edits_by_file {
-        // Read the file content
         let file_content = fs::read_to_string(&path)
             .with_context(|| format!("Failed to read {}", path.display()))?;
+        files_to_edit.push((path, file_content, edits));
+    }
 
+    // Apply content edits to files at their ORIGINAL locations (before renames)
+    for (path, file_content, edits) in files_to_edit {
         if let Err(e) = apply_content_edits_with_content(&path, &file_content, &edits, &mut state) {
             state.log(&format!(
                 "Error applying edits to {}: {}",
